@@ -37,6 +37,7 @@ def universes(tier):
     for i, r in enumerate(pf.dedupe(pf.HAND[:16] + pf.rxn_universe(A02[:5], 1))):
         stale.append({"reaction": r, "input_reaction": "CCC>>CCCC", "solved": i % 2 == 0, "solved_by": "rule-based", "issue": "old"})
     us.append(("stale input_reaction column", stale, {}, 4))
+    us += pf.ids_universes()
     return us
 
 
